@@ -1,4 +1,5 @@
 import BalmProofs.JudgeSpec
+import Balm.PEnvC
 /-!
 # Soundness of the weak-invariant judge (C03, C05, C15)
 
@@ -18,6 +19,7 @@ structure WeakSpec (c : Ctx n) (d : Dump n) : Prop where
   distinct : ((d.nodes.map (·.space)).eraseDups).length = d.nodes.length
   node : ∀ i, i < d.nodes.length → TrapSpace c.N (d.node i).space ∧ perc c.N (d.node i).space = (d.node i).space
   stub : ∀ i, i < d.nodes.length → (d.node i).expanded = false → d.outs i = []
+  targets : ∀ i, i < d.nodes.length → ∀ e ∈ d.outs i, e.2.1 < d.nodes.length
   /-- successors are strictly inside the node -/
   inside : ∀ i, i < d.nodes.length → (d.node i).expanded = true → ∀ e ∈ d.outs i,
     (d.space e.2.1).le (d.node i).space ∧ d.space e.2.1 ≠ (d.node i).space
@@ -41,7 +43,7 @@ theorem judgeWeak_sound (c : Ctx n) (d : Dump n) (h : judgeWeak c d = none) : We
   unfold chkRoot at hroot
   unfold chkDistinct at hdist
   rw [check_none] at hroot hdist
-  refine ⟨?_, by simpa using hdist, ?_, ?_, ?_, ?_, ?_⟩
+  refine ⟨?_, by simpa using hdist, ?_, ?_, ?_, ?_, ?_, ?_⟩
   · simp only [Bool.and_eq_true, decide_eq_true_eq, beq_iff_eq] at hroot
     exact hroot
   · intro i hi
@@ -57,6 +59,13 @@ theorem judgeWeak_sound (c : Ctx n) (d : Dump n) (h : judgeWeak c d = none) : We
     simp only [hexp, Bool.not_false, if_true] at h5
     rw [check_none] at h5
     simpa using h5
+  · intro i hi e he
+    have h4 := hnode i hi (chkTargets d i) (by simp)
+    unfold chkTargets at h4
+    rw [check_none, List.all_eq_true] at h4
+    have := h4 e he
+    simp only [Bool.and_eq_true, decide_eq_true_eq] at this
+    exact this.1
   · intro i hi hexp e he
     have h5 := hnode i hi (chkKindWeak (minTrapsIn c.N c.root) d i) (by simp)
     unfold chkKindWeak at h5
@@ -83,5 +92,118 @@ theorem judgeWeak_sound (c : Ctx n) (d : Dump n) (h : judgeWeak c d = none) : We
     simp only [if_true] at h6
     rw [check_none] at h6
     simpa using h6
+
+/-! ### the weak invariant of a diagram without stubs determines its leaves (C03) -/
+
+theorem Dump.space_eq_node (d : Dump n) (i : Nat) : d.space i = (d.node i).space := by
+  unfold Dump.space Dump.node
+  cases d.nodes[i]? <;> rfl
+
+/-- every trap space inside `root` contains a minimal trap space of the list `minTrapsIn` -/
+theorem exists_min_inside (N : Net n) (root : Space n) :
+    ∀ (k : Nat) (p : Space n), free p ≤ k → TrapSpace N p → p.le root → ∃ m ∈ minTrapsIn N root, m.le p := by
+  intro k
+  induction k with
+  | zero =>
+    intro p hk hp hle
+    refine ⟨p, (mem_minTrapsIn N root p).2 ⟨⟨hp, hle⟩, fun q _ _ hqp => ?_⟩, Space.le_refl p⟩
+    by_contra hne
+    have := free_lt_of_le_ne hqp hne
+    omega
+  | succ k ih =>
+    intro p hk hp hle
+    by_cases hmin : ∀ q, TrapSpace N q → q.le p → q = p
+    · exact ⟨p, (mem_minTrapsIn N root p).2 ⟨⟨hp, hle⟩, fun q hq _ hqp => hmin q hq hqp⟩, Space.le_refl p⟩
+    · obtain ⟨q, hq⟩ := not_forall.1 hmin
+      obtain ⟨hqt, hq2⟩ := Classical.not_imp.1 hq
+      obtain ⟨hqp, hne⟩ := Classical.not_imp.1 hq2
+      have hlt := free_lt_of_le_ne hqp hne
+      obtain ⟨m, hm, hmq⟩ := ih q (by omega) hqt (Space.le_trans hqp hle)
+      exact ⟨m, hm, Space.le_trans hmq hqp⟩
+
+theorem top_le (p : Space n) : p.le top := by
+  intro i b h
+  simp [top] at h
+
+/-- **C03 from the weak invariant.** If the dump of a real diagram passes `judgeWeak` and has no unexpanded node,
+    its expanded successor-free nodes (`minimal_trap_spaces()`) are exactly the minimal trap spaces of the network -
+    whatever mixture of strategies, shortcuts and skip nodes produced it. -/
+theorem weak_complete_leaves (c : Ctx n) (d : Dump n) (hroot : c.root = perc c.N top) (hw : WeakSpec c d)
+    (hall : ∀ i, i < d.nodes.length → (d.node i).expanded = true) :
+    ∀ m, m ∈ d.leaves ↔ m ∈ minTrapsIn c.N c.root := by
+  have hin : ∀ i, i < d.nodes.length → (d.node i).space.le c.root := by
+    intro i hi
+    obtain ⟨ht, hp⟩ := hw.node i hi
+    have := perc_mono c.N ht (top_le (d.node i).space)
+    rw [hp, ← hroot] at this
+    exact this
+  have hsucc : ∀ i, d.succ i = (d.outs i).map (·.2.1) := fun i => rfl
+  intro m
+  constructor
+  · intro hm
+    unfold Dump.leaves at hm
+    obtain ⟨i, hi, rfl⟩ := List.mem_map.1 hm
+    obtain ⟨hir, hcond⟩ := List.mem_filter.1 hi
+    have hilt : i < d.nodes.length := List.mem_range.1 hir
+    simp only [Bool.and_eq_true, List.isEmpty_iff] at hcond
+    have houts : d.outs i = [] := by
+      have := hcond.2
+      rw [hsucc] at this
+      simpa using this
+    rw [Dump.space_eq_node]
+    obtain ⟨ht, _⟩ := hw.node i hilt
+    obtain ⟨m', hm', hle'⟩ := exists_min_inside c.N c.root _ _ (Nat.le_refl _) ht (hin i hilt)
+    rcases hw.cover i hilt (hall i hilt) m' hm' hle' with h | ⟨e, he, _⟩
+    · rw [← h]; exact hm'
+    · rw [houts] at he; cases he
+  · intro hm
+    have hmspec := (mem_minTrapsIn c.N c.root m).1 hm
+    -- walk down from the root to the node whose space is `m`
+    have descend : ∀ (k : Nat) (i : Nat), i < d.nodes.length → free (d.node i).space ≤ k → m.le (d.node i).space →
+        ∃ j, j < d.nodes.length ∧ (d.node j).space = m := by
+      intro k
+      induction k with
+      | zero =>
+        intro i hi hk hle
+        rcases hw.cover i hi (hall i hi) m hm hle with h | ⟨e, he, hme⟩
+        · exact ⟨i, hi, h.symm⟩
+        · obtain ⟨h1, h2⟩ := hw.inside i hi (hall i hi) e he
+          have := free_lt_of_le_ne h1 h2
+          omega
+      | succ k ih =>
+        intro i hi hk hle
+        rcases hw.cover i hi (hall i hi) m hm hle with h | ⟨e, he, hme⟩
+        · exact ⟨i, hi, h.symm⟩
+        · obtain ⟨h1, h2⟩ := hw.inside i hi (hall i hi) e he
+          have hlt := free_lt_of_le_ne h1 h2
+          have hj := hw.targets i hi e he
+          rw [Dump.space_eq_node] at hlt hme
+          exact ih e.2.1 hj (by omega) hme
+    have h0 : 0 < d.nodes.length := hw.root.1
+    have hroot0 : (d.node 0).space = c.root := by rw [← Dump.space_eq_node]; exact hw.root.2
+    obtain ⟨j, hj, hjm⟩ := descend _ 0 h0 (Nat.le_refl _) (by rw [hroot0]; exact hmspec.1.2)
+    -- that node has no successor: a successor would be a trap space strictly inside a minimal one
+    have houts : d.outs j = [] := by
+      cases hout : d.outs j with
+      | nil => rfl
+      | cons e rest =>
+        exfalso
+        have he : e ∈ d.outs j := by rw [hout]; exact List.mem_cons_self
+        obtain ⟨h1, h2⟩ := hw.inside j hj (hall j hj) e he
+        have hk := hw.targets j hj e he
+        obtain ⟨ht, _⟩ := hw.node e.2.1 hk
+        rw [Dump.space_eq_node, hjm] at h1 h2
+        exact h2 (hmspec.2 _ ht (Space.le_trans h1 hmspec.1.2) h1)
+    unfold Dump.leaves
+    apply List.mem_map.2
+    refine ⟨j, List.mem_filter.2 ⟨List.mem_range.2 hj, ?_⟩, by rw [Dump.space_eq_node, hjm]⟩
+    have hexp := hall j hj
+    have hex2 : (d.nodes[j]?.map (·.expanded)).getD false = true := by
+      unfold Dump.node at hexp
+      cases hx : d.nodes[j]? with
+      | none => rw [hx] at hexp; simp at hexp
+      | some nd => rw [hx] at hexp; simpa using hexp
+    simp only [hex2, Bool.true_and, List.isEmpty_iff]
+    rw [hsucc, houts]; rfl
 
 end Balm.Impl
